@@ -25,6 +25,10 @@ def main():
     rows = []
     for f in sorted(glob.glob(str(VERIF / 'seeded' / '*' / 'meta.json'))):
         m = json.loads(Path(f).read_text())
+        if m.get('obsolete_since'):
+            obsolete = ' (obsolete: ' + m['obsolete_since'].split(':')[0] + ')'
+        else:
+            obsolete = ''
         if m.get('caught_with_failing_input'):
             verdict = 'VIOLATION with failing input'
         elif m.get('caught'):
@@ -38,7 +42,7 @@ def main():
             first = '' if not fv else ('caught' if fv.get('caught_with_failing_input', fv.get('caught')) else
                                        'no-failing-input-found' if fv.get('caught') else 'MISSED')
         rows.append(f"| {m['id']} | {m['property']} | {m.get('repo_head', '')} | {m.get('suite_with_patch', 'n/a')} | {m.get('demo_without_patch_rc')} / "
-                    f"{m.get('demo_with_patch_rc')} | {verdict} | {m.get('replay_signature') or ''} | {first} |")
+                    f"{m.get('demo_with_patch_rc')} | {verdict}{obsolete} | {m.get('replay_signature') or ''} | {first} |")
     (VERIF / 'seeded' / 'INDEX.md').write_text(HEAD + '\n'.join(rows) + '\n')
     print(len(rows), 'seeds;', sum('MISSED' in r.split('|')[6] for r in rows), 'missed now')
 
